@@ -126,8 +126,46 @@ func genCase(t *rapid.T) c01Case {
 	return c
 }
 
+// genLarge: logs large enough that tile numbers reach four digits (the tile path then gains an
+// "x001" element) with lookups of the records around those tiles; mostly fault-free.
+func genLarge(t *rapid.T) c01Case {
+	type shape struct {
+		h int
+		n int64
+	}
+	sh := []shape{{1, 2001}, {1, 2003}, {1, 4002}, {1, 4004}, {1, 4100}, {1, 4500}, {2, 4001}, {2, 4003}, {2, 4100}, {2, 4500}, {3, 8001}, {3, 8009}, {1, 8010}}[gen.Uniform(t, 13, "shape")]
+	c := c01Case{H: sh.h, N: sh.n, Serve: sh.n}
+	if gen.Chance(t, 30, "hasstored") {
+		c.Stored = rapid.Int64Range(1, c.Serve).Draw(t, "stored")
+	}
+	c.Prefill = []int{0, 0, 1, 2}[gen.Uniform(t, 4, "prefill")]
+	c.PrefillTo = rapid.Int64Range(1, c.Serve).Draw(t, "prefillto")
+	ns := rapid.IntRange(1, 4).Draw(t, "nsteps")
+	for i := 0; i < ns; i++ {
+		var mod int64
+		switch rapid.IntRange(0, 3).Draw(t, "where") {
+		case 0:
+			mod = rapid.Int64Range(0, c.Serve-1).Draw(t, "mod")
+		case 1:
+			mod = c.Serve - 1 - int64(rapid.IntRange(0, 3).Draw(t, "fromend"))
+		default:
+			// around record 1000 * 2^(H*(L+1)) for L = 0, 1, 2
+			b := int64(1000) << uint(c.H*(1+rapid.IntRange(0, 2).Draw(t, "l")))
+			mod = b + int64(rapid.IntRange(-2, 9).Draw(t, "d"))
+		}
+		if mod < 0 || mod >= c.Serve {
+			mod = c.Serve - 1
+		}
+		c.Steps = append(c.Steps, step{Mod: mod, GoMod: gen.Chance(t, 20, "gomod"), Restart: i > 0 && gen.Chance(t, 25, "restart")})
+	}
+	if gen.Chance(t, 30, "fault") {
+		c.Faults = append(c.Faults, genFault(t))
+	}
+	return c
+}
+
 func okCase(c c01Case) bool {
-	if c.H < 1 || c.H > 10 || c.N < 1 || c.N > 5000 || c.Serve < 1 || c.Serve > c.N || c.Stored < 0 || c.Stored > c.Serve || c.PrefillTo < 1 || c.PrefillTo > c.Serve || c.Prefill < 0 || c.Prefill > 2 || len(c.Steps) == 0 || len(c.Steps) > 12 || len(c.Faults) > 8 {
+	if c.H < 1 || c.H > 10 || c.N < 1 || c.N > 9000 || c.Serve < 1 || c.Serve > c.N || c.Stored < 0 || c.Stored > c.Serve || c.PrefillTo < 1 || c.PrefillTo > c.Serve || c.Prefill < 0 || c.Prefill > 2 || len(c.Steps) == 0 || len(c.Steps) > 12 || len(c.Faults) > 8 {
 		return false
 	}
 	for _, s := range c.Steps {
@@ -299,6 +337,7 @@ func classOf(name string) string {
 
 var subs = []pbt.Sub{
 	pbt.New("faults", 3000, 8000, genCase, check),
+	pbt.New("large", 150, 1500, genLarge, check),
 }
 
 func TestGen(t *testing.T)    { pbt.RunAll(t, subs) }
